@@ -10,6 +10,8 @@ EXTENDS MonAnn
 MonInit(cfg) ==
   LifeInit(cfg) @@ [ till  |-> [i \in Range(cfg.insts) |-> 0],      \* ticks until the first offer is due; -1 = delay not drawn yet
                      first |-> [i \in Range(cfg.insts) |-> FALSE],  \* a first offer of this incarnation has been transmitted
+                     grace |-> [i \in Range(cfg.insts) |-> 0],      \* ticks in which offers queued by the PREVIOUS incarnation can
+                                                                    \* still leave the collector (they say nothing about this one)
                      pend  |-> <<>> ]   \* [inst, dst, lo, hi (remaining window, -1 = delay not drawn yet), must]
 W(m) == m.cfg.collect
 InitKnown(m) == m.cfg.initMin = m.cfg.initMax
@@ -20,6 +22,7 @@ Api(m, e) ==
       m1 == Life(m, e)
       m2 == [m1 EXCEPT !.till  = [i \in DOMAIN @ |-> IF i \in a THEN (IF InitKnown(m) THEN m.cfg.initMin ELSE -1) ELSE @[i]],
                        !.first = [i \in DOMAIN @ |-> IF i \in a \cup z THEN FALSE ELSE @[i]],
+                       !.grace = [i \in DOMAIN @ |-> IF i \in z /\ W(m) > 0 THEN W(m) + 1 ELSE @[i]],
                        \* answers owed by an instance that is stopped meanwhile are no longer required (C10 forbids them)
                        !.pend  = [j \in DOMAIN @ |-> IF @[j].inst \in z THEN [@[j] EXCEPT !.must = FALSE] ELSE @[j]]]
   IN m2
@@ -27,6 +30,7 @@ Api(m, e) ==
 ClApplied(m) ==
   LET z == IF m.cl THEN {i \in Announced(m) : m.run[i]} ELSE {}
   IN [Settled(m) EXCEPT !.first = [i \in DOMAIN @ |-> IF i \in z THEN FALSE ELSE @[i]],
+                        !.grace = [i \in DOMAIN @ |-> IF i \in z /\ W(m) > 0 THEN W(m) + 1 ELSE @[i]],
                         !.pend  = [j \in DOMAIN @ |-> IF @[j].inst \in z THEN [@[j] EXCEPT !.must = FALSE] ELSE @[j]]]
 
 Status(m, i) ==   \* "must", "may", "not"
@@ -66,14 +70,22 @@ Undrawn(m) ==
   LET m1 == IF \E j \in DOMAIN m.pend : m.pend[j].lo = -1 /\ m.pend[j].must THEN Fail(m, "find_not_answered") ELSE m
   IN [m1 EXCEPT !.pend = SelectSeq(@, LAMBDA p : p.lo # -1)]
 
+\* An observed answer is matched to a pending expectation whose window is open.  Required ones first (earliest closing);
+\* but when an OPTIONAL one that closes earlier is open too, the answer may just as well have been its answer and the
+\* required one may still be served later: the optional one is dropped and the required one stays on as optional
+\* (both readings are then accepted, and nothing is demanded that cannot be told from outside).
 Answer(m, dst, en) ==
   LET is == InstOfSvc(m, en.svc)
       P(must) == {j \in DOMAIN m.pend : m.pend[j].inst \in is /\ m.pend[j].dst = dst /\ m.pend[j].must = must
                                         /\ m.pend[j].lo = 0}
-      drop(j) == [m EXCEPT !.pend = SubSeq(@, 1, j - 1) \o SubSeq(@, j + 1, Len(@))]
-      C  == P(TRUE) \cup P(FALSE)        \* open windows: the one that closes first is served first
-      m1 == IF C # {} THEN drop(CHOOSE j \in C : \A x \in C : m.pend[j].hi < m.pend[x].hi
-                                                            \/ (m.pend[j].hi = m.pend[x].hi /\ (m.pend[j].must \/ ~m.pend[x].must) /\ (m.pend[j].must # m.pend[x].must \/ j <= x)))
+      First(S) == CHOOSE j \in S : \A x \in S : m.pend[j].hi < m.pend[x].hi \/ (m.pend[j].hi = m.pend[x].hi /\ j <= x)
+      drop(q, j) == SubSeq(q, 1, j - 1) \o SubSeq(q, j + 1, Len(q))
+      m1 == IF P(TRUE) # {}
+            THEN LET jm == First(P(TRUE))
+                     E  == {j \in P(FALSE) : m.pend[j].hi < m.pend[jm].hi}
+                 IN IF E = {} THEN [m EXCEPT !.pend = drop(@, jm)]
+                    ELSE [m EXCEPT !.pend = drop([@ EXCEPT ![jm].must = FALSE], First(E))]
+            ELSE IF P(FALSE) # {} THEN [m EXCEPT !.pend = drop(@, First(P(FALSE)))]
             ELSE IF \E j \in DOMAIN m.pend : m.pend[j].inst \in is /\ m.pend[j].dst = dst THEN Fail(m, "answer_before_its_delay")
             ELSE IF is = {} THEN Fail(m, "unknown_identity")
             ELSE IF \A i \in is : ~m.run[i] THEN Fail(m, "answer_from_stopped_instance")
@@ -86,7 +98,10 @@ Tx(m, dst, es) ==
   ELSE LET en == Head(es)
            m1 == IF en.ty # "offer" \/ en.ttl = 0 THEN m
                  ELSE IF dst = "mc"
-                 THEN [m EXCEPT !.first = [i \in DOMAIN @ |-> IF i \in InstOfSvc(m, en.svc) /\ m.run[i] THEN TRUE ELSE @[i]]]
+                 \* (only an offer that can be THIS incarnation's: its first offer is due or past, and nothing the previous
+                 \*  incarnation queued can still be in the collector)
+                 THEN [m EXCEPT !.first = [i \in DOMAIN @ |-> IF i \in InstOfSvc(m, en.svc) /\ m.run[i] /\ m.till[i] = 0 /\ m.grace[i] = 0
+                                                                THEN TRUE ELSE @[i]]]
                  ELSE Answer(m, dst, en)
        IN Tx(m1, dst, Tail(es))
 
@@ -99,7 +114,8 @@ Adv(m0, d) ==
       m1 == IF \E j \in DOMAIN m.pend : m.pend[j].must /\ m.pend[j].hi < d THEN Fail(m, "find_not_answered") ELSE m
       keep == SelectSeq(m1.pend, LAMBDA p : p.hi >= d)
   IN [m1 EXCEPT !.pend = [j \in DOMAIN keep |-> [keep[j] EXCEPT !.hi = @ - d, !.lo = IF @ > d THEN @ - d ELSE 0]],
-                !.till = [i \in DOMAIN @ |-> IF @[i] = -1 THEN -1 ELSE IF @[i] > d THEN @[i] - d ELSE 0]]
+                !.till = [i \in DOMAIN @ |-> IF @[i] = -1 THEN -1 ELSE IF @[i] > d THEN @[i] - d ELSE 0],
+                !.grace = [i \in DOMAIN @ |-> IF @[i] > d THEN @[i] - d ELSE 0]]
 
 MonStep(m0, e) ==
   LET m == [m0 EXCEPT !.n = @ + 1] IN
